@@ -14,7 +14,8 @@ RULE = ('Hypothesis documents x one of the 40 interval names x up/down (both dra
         'Explored profiles tracked as findings: "accidentals" (notes with #, -, ##, --) and "chords".  Oracle: the '
         'eKern export of doc.to_transposed(interval, direction) must equal the source eKern export cell for cell except '
         'that the pitch part of every note is the kv/pitch.py (C09) transposition of the source pitch; decorations, '
-        'durations, rests and all other cells identical; when the model says some result needs more than two '
+        'durations, rests and all other cells identical; the measure queries (count, iteration, first measure, single-measure '
+        'excerpts) answer the same for both documents; when the model says some result needs more than two '
         'accidentals the call may raise (then nothing else is checked); the source document\'s export before and after '
         'the call must be equal; transposing the result back by the same interval in the opposite direction must '
         'export the source text; unknown interval names and directions raise ValueError.  Non-trivial: interval other '
@@ -91,6 +92,18 @@ def check(case):
         return Result(classes=classes + ['unspellable-returned'], sample=text)
     out_e = K.dumps(t, 'dumps(transposed)', encoding=kp.Encoding.eKern)
     out_k = K.dumps(t, 'dumps(transposed)')
+    # the measure structure belongs to "nothing else": same measure index, same answers to the measure queries
+    def measure_view(x):
+        try:
+            m = x.measures_count()
+            return [m, list(x), x.get_first_measure(), kp.dumps(x, from_measure=1, to_measure=1).count('\n') if m else None,
+                    kp.dumps(x, from_measure=m, to_measure=m).count('\n') if m else None]
+        except Exception as e_:  # noqa
+            return ['EXC', type(e_).__name__]
+    mv0, mv1 = measure_view(d), measure_view(t)
+    if mv0 != mv1:
+        problems.append(Problem('measure-index-changed', f'measures_count / iteration / first measure / size of the first and last '
+                                                         f'single-measure excerpts: source {mv0}, transposed {mv1}', {}))
     g0, g1 = K.grid(before_e), K.grid(out_e)
     src = K.expected_rows(doc)
     if len(g0) != len(src):
